@@ -852,7 +852,7 @@ def run(ctx):
     ub = set(usable_backends())
     cases: List[Tuple[str, Dict[str, Any]]] = [("corpus", c["case"]) for c in vlib.corpus_cases(ID) if c["case"]["backend"] in ub]
     cases += [("grid", c) for c in grid_cases(ctx.tier)]
-    nrand = 1500 if ctx.tier == "quick" else 30000
+    nrand = 1000 if ctx.tier == "quick" else 30000
     cases += [("random", gen_case(ctx.rng)) for _ in range(nrand)]
     ev = evaluate(ctx, [c for _, c in cases])
     for (stream, _), e in zip(cases, ev):
